@@ -106,6 +106,7 @@ class Contract:
         self.safety = safety
         self.witness = witness
         self.merge = merge
+        self.shape = {}           # name -> n: parameter/free name bound to a list of n fresh symbolic elements (SB)
         self.region = region      # callable(func_ast) -> statements: block contract on a region of the body
         self.yield_each = list(yield_each)      # P(c) proved at every yield, over entry values only
         self.yield_each_local = list(yield_each_local)   # P(c, locals at the yield): 'exists locals' semantics
